@@ -294,7 +294,9 @@ def _apply_op(g, op, res=None):
         if not vs:
             return None
         t = (vs[a % len(vs)], EDIT_ROLES[b % len(EDIT_ROLES)], EDIT_CONSTS[c % len(EDIT_CONSTS)])
-        if t in T or t[2] in set(vs):
+        # distinct triples must stay distinct in their *written* form ('0.0' vs 0.0)
+        if t[2] in set(vs) or any(x[0] == t[0] and x[1] == t[1] and rcontent.written(x[2]) == rcontent.written(t[2])
+                                  for x in T):
             return None
         T.insert(op.get('pos', n) % (n + 1), t)
         return name
